@@ -6,7 +6,7 @@
    differential rendering in tools/checks/c19.py (partial). *)
 From Coq Require Import String.
 From Verif Require Import JinjaScan JinjaScanThm JinjaLinePrefixThm JinjaRules Gen_JinjaRules JinjaRulesThm JinjaPins JinjaPinsThm.
-From Verif Require Import JinjaVendorPins Gen_JinjaVendor JinjaVendorThm JinjaRx Gen_JinjaRx JinjaRxThm JinjaPipe JinjaPipeThm.
+From Verif Require Import JinjaVendorPins Gen_JinjaVendor JinjaVendorThm JinjaRx Gen_JinjaRx JinjaRxThm JinjaPipe JinjaPipeThm JinjaMarkerThm.
 Open Scope N_scope.
 
 (* (1) Conservativity of the lexer modification.  For EVERY source that contains no occurrence of an opener followed by
@@ -49,12 +49,36 @@ Example C19_marker_example :
   = Some ([120; 10], n_variable, [32; 9; 123; 123; 42], [32; 121]).
 Proof. vm_compute. reflexivity. Qed.
 
-(* ... and the parser's prefix (token.value[:-3]) of such a token is that run, and the token is recognised as a marker *)
+(* ... and for such a token the parser's marker decision (as the code in /repo makes it now: `code_marker`, legacy or
+   delimiter-aware, flag regenerated from parser.py) is "auto-indent with exactly that run as prefix" *)
 Theorem C19_autoindent_prefix_is_the_run :
-  forall (w : str) (x : N),
-    autoindent_prefix (w ++ [LBRACE; x; STAR]) = w /\ token_is_marker (w ++ [LBRACE; x; STAR]) = true.
-Proof. intros w x. split; [exact (autoindent_prefix_opener w LBRACE x STAR) | exact (marker_token_is_marker w LBRACE x)]. Qed.
+  forall (w : str) (x : N), code_marker [[LBRACE; x]] (w ++ [LBRACE; x; STAR]) = Some w.
+Proof. intros w x. exact (marker_default_token_lemma autoindent_delimiter_aware w x). Qed.
 Print Assumptions C19_autoindent_prefix_is_the_run.
+
+(* the DELIMITER-AWARE marker code (design_notes/C19_marker_delimiter_fix.patch): for EVERY list of start strings the prefix is
+   exactly what precedes `<start>*`, <start> one of the environment's own non-empty start strings; and every start string works *)
+Theorem C19_marker_prefix_every_start_string :
+  (forall (starts : list str) (v p : str), marker_m true starts v = Some p -> exists st, In st starts /\ st <> [] /\ v = p ++ st ++ [42]) /\
+  (forall (D w : str), D <> [] -> marker_m true [D] (w ++ D ++ [42]) = Some w).
+Proof. split; [exact marker_aware_sound_lemma | exact marker_aware_single_lemma]. Qed.
+Print Assumptions C19_marker_prefix_every_start_string.
+
+(* the LEGACY marker code (`endswith('*')`, `[:-3]`) is wrong outside two-character delimiters: finding F-JINJA-MARKER-DELIM.
+   D1: with start string "\VAR{" the prefix of "  \VAR{*" is not "  ";  D2: the PLAIN opener "<*" is taken for a marker.
+   (lead: when the patch lands these two move to History/C19_history.v) *)
+Theorem C19_legacy_marker_prefix_refuted : exists D w : str, D <> [] /\ marker_m false [D] (w ++ D ++ [42]) <> Some w.
+Proof. exact legacy_prefix_refuted. Qed.
+Print Assumptions C19_legacy_marker_prefix_refuted.
+
+Theorem C19_legacy_marker_plain_opener_refuted : exists D : str, marker_m false [D] D <> None /\ marker_m true [D] D = None.
+Proof. exact legacy_plain_opener_refuted. Qed.
+Print Assumptions C19_legacy_marker_plain_opener_refuted.
+
+(* tie of the legacy constant: while the code is not delimiter-aware its slice bound is the 3 of the legacy model *)
+Theorem C19_marker_mode_tie : autoindent_delimiter_aware = false -> autoindent_drop = 3%nat.
+Proof. intros H. first [reflexivity | discriminate H]. Qed.
+Print Assumptions C19_marker_mode_tie.
 
 (* (3) lineprefix (translated do_lineprefix): split at "\n", the output consists of exactly the lines str.splitlines()
    finds in the input, each non-empty one prefixed, empty ones unchanged.  Consequences spelled out below:
@@ -98,16 +122,16 @@ Proof. vm_compute. reflexivity. Qed.
    applied to the rendering of the plain construct, with the token's blank run as prefix; any other begin token leaves
    the parsed node(s) untouched. *)
 Theorem C19_autoindent_desugar_variable :
-  forall (E : Type) (ev : E -> str) (value : str) (rv : E),
-    render_node ev builtin_filters (subparse_variable value rv) =
-    Some (if token_is_marker value then do_lineprefix (ev rv) (autoindent_prefix value) else ev rv).
+  forall (E : Type) (ev : E -> str) (mk : option str) (rv : E),
+    render_node ev builtin_filters (subparse_variable mk rv) =
+    Some (match mk with Some p => do_lineprefix (ev rv) p | None => ev rv end).
 Proof. exact autoindent_var_lemma. Qed.
 Print Assumptions C19_autoindent_desugar_variable.
 
 Theorem C19_autoindent_desugar_block :
-  forall (E : Type) (ev : E -> str) (value : str) (rv : list E),
-    render_all ev (subparse_block value rv) =
-    Some (if token_is_marker value then do_lineprefix (concat (map ev rv)) (autoindent_prefix value) else concat (map ev rv)).
+  forall (E : Type) (ev : E -> str) (mk : option str) (rv : list E),
+    render_all ev (subparse_block mk rv) =
+    Some (match mk with Some p => do_lineprefix (concat (map ev rv)) p | None => concat (map ev rv) end).
 Proof. exact autoindent_block_lemma. Qed.
 Print Assumptions C19_autoindent_desugar_block.
 
@@ -228,7 +252,7 @@ Proof. exact documented_deltas_differ_from_reference_lemma. Qed.
 Print Assumptions C19_documented_deltas_differ_from_reference.
 
 Example C19_vendored_reference_counts :
-  (length (filter eq_stock31 vendored_digests) >= 270)%nat /\ length vendored_digests = 733%nat.
+  (length (filter eq_stock31 vendored_digests) >= 270)%nat /\ length vendored_digests = 774%nat.
 Proof. exact verbatim_reference_count_lemma. Qed.
 
 (* (10) END TO END over the template text (Gen/JinjaPipe.v): scanner (ANY rule list, so every regenerated option combination:
@@ -268,30 +292,68 @@ Theorem C19_pipeline_conservative :
     (forall cb1 cb2 toks, (forall ends t, tsuffix t toks -> cb1 ends t = cb2 ends t) -> ps cb1 toks = ps cb2 toks) ->
     forall (ev : E -> C -> option V) (text : V -> str)
            (rs : (list (pnode E St) -> C -> option (str * C)) -> St -> C -> option (str * C))
+           (mv mb : str -> option str)
            (rules : xrules) (inner : str -> option N -> str -> option (list xtok * nat)) (fuel : nat) (src : str) (c : C),
       marker_free py_uni rules None src = true ->
-      (forall toks, scanx_all py_uni (demarkx rules) inner src = Some toks -> no_marker_tokens (wrap toks) = true) ->
-      pipeline E St C V token_is_marker pt ps ev text rs py_uni rules inner fuel src c =
-      pipeline E St C V (fun _ => false) pt ps ev text rs py_uni (demarkx rules) inner fuel src c.
+      (forall toks, scanx_all py_uni (demarkx rules) inner src = Some toks -> no_marker_tokens mv mb (wrap toks) = true) ->
+      pipeline E St C V mv mb pt ps ev text rs py_uni rules inner fuel src c =
+      pipeline E St C V never never pt ps ev text rs py_uni (demarkx rules) inner fuel src c.
 Proof.
-  intros E St C V pt ps H1 H2 H3 ev text rs rules inner fuel src c.
-  exact (pipeline_conservative_lemma E St C V pt ps H1 H2 H3 ev text rs py_uni rules inner fuel src c).
+  intros E St C V pt ps H1 H2 H3 ev text rs mv mb rules inner fuel src c.
+  exact (pipeline_conservative_lemma E St C V pt ps H1 H2 H3 ev text rs mv mb py_uni rules inner fuel src c).
 Qed.
 Print Assumptions C19_pipeline_conservative.
 
-(* (10c) WITH the marker, print statement: the token `w{{*` makes the bundled parser build Filter(e, lineprefix, w) where the
-   upstream parser builds e for `{{`, and the output is the text of the value -- ANY value (non-strings, multi-line, empty,
+(* (10b') with the DELIMITER-AWARE marker decision the second hypothesis is no longer assumed: it follows from a decidable
+   condition on the rule list (`covers`: for every start string handed to marker_start there is a marker alternative
+   `[..]*<start>\*` spelled with literal characters) and from the pushed lexer states yielding no root begin tokens.
+   For the legacy decision it is FALSE (C19_legacy_marker_plain_opener_refuted: delimiters / prefixes ending in `*`). *)
+Theorem C19_pipeline_conservative_delimiter_aware :
+  forall (E St C V : Type)
+         (pt : list xtok -> option (E * list xtok))
+         (ps : (list str -> list xtok -> option (list (pnode E St) * list xtok)) -> list xtok -> option (list St * list xtok)),
+    (forall toks e rest, pt toks = Some (e, rest) -> tsuffix rest toks) ->
+    (forall cb toks ss rest, ps cb toks = Some (ss, rest) -> tsuffix rest toks) ->
+    (forall cb1 cb2 toks, (forall ends t, tsuffix t toks -> cb1 ends t = cb2 ends t) -> ps cb1 toks = ps cb2 toks) ->
+    forall (ev : E -> C -> option V) (text : V -> str)
+           (rs : (list (pnode E St) -> C -> option (str * C)) -> St -> C -> option (str * C))
+           (sv sb : list str)
+           (rules : xrules) (inner : str -> option N -> str -> option (list xtok * nat)) (fuel : nat) (src : str) (c : C),
+      (forall st, In st (sv ++ sb) -> st <> [] -> covers rules st = true) ->
+      (forall n p rest toks k, inner n p rest = Some (toks, k) -> forallb (fun t => negb (root_begin (fst t))) toks = true) ->
+      marker_free py_uni rules None src = true ->
+      pipeline E St C V (marker_m true sv) (marker_m true sb) pt ps ev text rs py_uni rules inner fuel src c =
+      pipeline E St C V never never pt ps ev text rs py_uni (demarkx rules) inner fuel src c.
+Proof.
+  intros E St C V pt ps H1 H2 H3 ev text rs sv sb rules inner fuel src c Hcov Hin Hfree.
+  apply (pipeline_conservative_lemma E St C V pt ps H1 H2 H3 ev text rs _ _ py_uni rules inner fuel src c Hfree).
+  intros toks Hs. exact (aware_no_marker_tokens_lemma py_uni inner Hin rules (demarkx rules) sv sb src toks Hcov Hfree Hs).
+Qed.
+Print Assumptions C19_pipeline_conservative_delimiter_aware.
+
+(* the regenerated rule lists cover their block / variable start strings (default "{%" "{{", ASP "<%" "${").  NOT covered: a
+   line-statement prefix ("%%": its marker alternative carries `^` anchors, `covers` is false) -- for the two line-prefix
+   combinations only C19_pipeline_conservative with its explicit second hypothesis applies. *)
+Example C19_regenerated_rule_sets_cover_their_start_strings :
+  forallb (fun i => covers (nth i root_rules_x []) [123; 37] && covers (nth i root_rules_x []) [123; 123]) [0; 1; 2; 3; 4; 5]%nat = true /\
+  forallb (fun i => covers (nth i root_rules_x []) [60; 37] && covers (nth i root_rules_x []) [36; 123]) [6; 7]%nat = true /\
+  forallb (fun i => negb (covers (nth i root_rules_x []) [37; 37])) [4; 5]%nat = true.
+Proof. vm_compute. repeat split. Qed.
+
+(* (10c) WITH the marker, print statement: a begin token the parser takes for a marker with prefix w (C19_autoindent_prefix_is_the_run,
+   C19_marker_prefix_every_start_string) makes the bundled parser build Filter(e, lineprefix, w) where the upstream parser builds e, and the output is the text of the value -- ANY value (non-strings, multi-line, empty,
    Markup: whatever `text` = soft_unicode/to_string yields) -- with every non-empty line prefixed by w (C19_lineprefix_spec),
    followed by the identical rest in the identical context. *)
 Theorem C19_autoindent_print_parse :
-  forall (E St : Type) pt ps f ends w x te (e : E) ve rest,
+  forall (E St : Type) pt ps (mv mb : str -> option str) f ends v w te (e : E) ve rest,
+    mv v = Some w ->
     pt te = Some (e, (K_VAREND, ve) :: rest) ->
-    subparse E St token_is_marker pt ps (S f) ends ((n_variable, w ++ [LBRACE; x; STAR]) :: te) =
-    match subparse E St token_is_marker pt ps f ends rest with
+    subparse E St mv mb pt ps (S f) ends ((n_variable, v) :: te) =
+    match subparse E St mv mb pt ps f ends rest with
     | Some (ns, r) => Some (PPrint (NFilter e autoindent_filter_name w) :: ns, r)
     | None => None
     end.
-Proof. exact subparse_marker_print. Qed.
+Proof. intros E St pt ps mv mb. exact (subparse_marker_print E St pt ps mv mb). Qed.
 Print Assumptions C19_autoindent_print_parse.
 
 Theorem C19_autoindent_print_render :
